@@ -33,9 +33,13 @@ func (p *ProtoProducer) getSamplingRateSystem(args *producer.ProduceArgs) Sampli
 	sampling, ok := p.sampling[key]
 	p.samplinglock.RUnlock()
 	if !ok {
-		sampling = p.samplingRateSystem()
+		// first contact: look again under the write lock (see NetFlowPipe.DecodeFlow)
 		p.samplinglock.Lock()
-		p.sampling[key] = sampling
+		sampling, ok = p.sampling[key]
+		if !ok {
+			sampling = p.samplingRateSystem()
+			p.sampling[key] = sampling
+		}
 		p.samplinglock.Unlock()
 	}
 
